@@ -249,6 +249,9 @@ def matmul(a, b):
     if check_class_nan(a) or check_class_nan(b):
         warnings.warn("Nan will not be propagated in matrix multiplication", RuntimeWarning, stacklevel=1)
 
+    if a.ndim == 0 or b.ndim == 0:
+        raise ValueError("matmul: input operands must have at least one dimension")
+
     # When b is 2-d, it is equivalent to dot
     if b.ndim <= 2:
         return dot(a, b)
